@@ -410,6 +410,12 @@ func streamC04(c *Ctx) {
 		if !handPicked[src] && dangerous(src) {
 			continue
 		}
+		if strings.Contains(src, "def _assign") {
+			// reported as finding F5 (docs/C04.findings.txt): the constant-path `=` shortcut bypasses a user-defined
+			// _assign/2 while the general form calls it; kept out of the rewrite comparison until it is decided
+			c.Count("excluded-F5-user-assign")
+			continue
+		}
 		p, ok := prepare(src)
 		if !ok {
 			c.Count("noparse")
